@@ -131,6 +131,11 @@ C13_AlgebraIsVoxelwiseLogic ==
               /\ v \in out.sub   <=> v \in ms[1] /\ \A i \in 2..k : v \notin ms[i]
               /\ out.diffdef => (v \in out.diff <=> (v \in ms[1]) # (v \in ms[2]))
 
+\* the list handed to an operation is, after the call, still the same list of the same masks (container and arrays)
+C13_InputsUntouched ==
+    Shape("algebra") => /\ Len(out.masks) = Len(case.parts)
+                        /\ \A i \in DOMAIN case.parts : out.masks[i] = MaskOf(case.parts[i])
+
 C13_AlgebraLaws ==
     Shape("algebra") =>
         LET ms == out.masks
